@@ -116,6 +116,10 @@ pub fn u16_to_be_bytes(v: u16) -> (r: [u8; 2]) ensures r@ == enc_u16(v) { v.to_b
 #[verifier::external_body]
 pub fn u32_to_be_bytes(v: u32) -> (r: [u8; 4]) ensures r@ == enc_u32(v) { v.to_be_bytes() }
 
+// R26: From<bool> for u8 (vstd leaves it unspecified); cross-checked by Kani harness deps.be-bytes
+#[verifier::external_body]
+pub fn u8_from_bool(b: bool) -> (r: u8) ensures r == (if b { 1u8 } else { 0u8 }) { u8::from(b) }
+
 // ---- strings (A4): String's bytes are encode_utf8 of its chars
 pub open spec fn sbytes(s: Seq<char>) -> Seq<u8> { vstd::utf8::encode_utf8(s) }
 
